@@ -50,6 +50,7 @@ def required_regimes(tier):
             need.add('c%s:%s' % (m, t))
     need.add('2d:h!=w')
     need.add('reflect:allowed_raise')
+    need |= {'variant:N=1', 'variant:C=2'}
     # reflect with a level shorter than the filter always raises in the implementation (allowed by C01)
     return need - {'reflect:lt_L', 'rreflect:lt_L', 'creflect:lt_L'}
 
@@ -83,6 +84,27 @@ def _compare(res, cfg, impl, ref, tags):
     res.op(Ai)
 
 
+def _shape_variants(res, cfg, tags, call, X, impl):
+    """The same transform called with a batch of one (N=1) and with two channels (channel 1 = the basis in reverse order)
+    must reproduce the rows of the batched single-channel extraction."""
+    try:
+        one = call(X[:1])
+        two = call(np.concatenate([X, X[::-1]], axis=1))
+    except Exception as e:
+        res.violation('analysis_vs_pywt', dict(cfg, variant='N=1 / C=2 call'), {'kind': 'raise', 'exc': repr(e)[:200]}, tags)
+        return
+    res['impl_calls'] += 2
+    res.regime('variant:N=1', 'variant:C=2')
+    for b1, b2, b in zip(one, two, impl):
+        if b1.shape != b[:1].shape or common.maxabs(b1 - b[:1]) > common.TOL:
+            res.violation('analysis_vs_pywt', dict(cfg, variant='N=1'), {'kind': 'value_or_shape', 'observed_shape': list(b1.shape), 'expected_shape': list(b[:1].shape)}, tags)
+            return
+        exp = np.concatenate([b, b[::-1]], axis=1)
+        if b2.shape != exp.shape or common.maxabs(b2 - exp) > common.TOL * max(1.0, common.maxabs(exp)):
+            res.violation('analysis_vs_pywt', dict(cfg, variant='C=2'), {'kind': 'value_or_shape', 'observed_shape': list(b2.shape), 'expected_shape': list(exp.shape)}, tags)
+            return
+
+
 def _run1(res, w, mode, n, cap):
     L = dwt.flen(w)
     X = common.eye_batch((n,))
@@ -113,6 +135,7 @@ def _run1(res, w, mode, n, cap):
         res['transitions'] += J
         res.regime(*tags)
         _compare(res, cfg, impl, ref, tags)
+        _shape_variants(res, cfg, tags, lambda Z: dwt.impl_fwd1d(w, mode, J, Z), X, impl)
         if J == 1 and n in (5, 12):
             res.sample({'config': cfg, 'impulses': n, 'band_lengths': [b.shape[-1] for b in impl]})
 
@@ -152,5 +175,7 @@ def _run2(res, item):
         res['transitions'] += J
         res.regime(*tags)
         _compare(res, cfg, impl, ref, tags)
+        if h * ww <= 64:
+            _shape_variants(res, cfg, tags, lambda Z: dwt.impl_fwd2d(w, mode, J, Z), X, impl)
         if J == 2 and (h, ww) == (5, 3):
             res.sample({'config': cfg, 'impulses': h * ww, 'band_shapes': [list(b.shape[-2:]) for b in impl]})
